@@ -1,4 +1,5 @@
 import SC.Properties.C04
+import SC.Properties.C09
 /-!
 # C07 — strcase and bytcase are the same function on the same bytes
 
@@ -24,6 +25,14 @@ theorem indexByte_parity (cfg : A.Cfg) (s : Bytes) (c : UInt8) :
     A.LastIndexByte (str cfg) s c = A.LastIndexByte (byt cfg) s c ∧
     A.IndexByteASCII (str cfg) s c = A.IndexByteASCII (byt cfg) s c ∧
     A.IndexNonASCII (str cfg) s = A.IndexNonASCII (byt cfg) s := ⟨rfl, rfl, rfl⟩
+
+/-- prefix / suffix family: both packages refine the same specification -/
+theorem affix_parity (cfg : A.Cfg) (s p : Bytes) :
+    A.HasPrefix (str cfg) s p = A.HasPrefix (byt cfg) s p ∧ A.TrimPrefix (str cfg) s p = A.TrimPrefix (byt cfg) s p ∧
+    A.CutPrefix (str cfg) s p = A.CutPrefix (byt cfg) s p ∧ A.HasSuffix (str cfg) s p = A.HasSuffix (byt cfg) s p ∧
+    A.TrimSuffix (str cfg) s p = A.TrimSuffix (byt cfg) s p ∧ A.CutSuffix (str cfg) s p = A.CutSuffix (byt cfg) s p := by
+  simp only [C09.hasPrefix_refines, C09.trimPrefix_refines, C09.cutPrefix_refines, C09.hasSuffix_refines,
+    C09.trimSuffix_refines, C09.cutSuffix_refines, and_self]
 
 example : A.Compare (str {}) [0xFF, 0x41] [0xEF, 0xBF, 0xBD, 0x61] = 0 := by decide +kernel
 end C07
